@@ -175,6 +175,13 @@ class NumpyProxy:
         r = _elementwise(lambda v: isinstance(v, sx.NaNValue) or (isinstance(v, float) and v != v))(x)
         return _np.asarray(r, dtype=bool)
 
+    def isfinite(self, x, *a, **k):
+        # a symbolic real is a finite number; the undefined results (nan, and the +-inf a division by zero may give) are not
+        if not _has_sym((x,)) and not isinstance(x, sx.NaNValue):
+            return _np.isfinite(x, *a, **k)
+        r = _elementwise(lambda v: not isinstance(v, sx.NaNValue) and not (isinstance(v, float) and (v != v or v in (float('inf'), float('-inf')))))(x)
+        return _np.asarray(r, dtype=bool)
+
     def nan_to_num(self, x, copy=True, nan=0.0, **k):
         def repl(v):
             # nan -> 0; the undefined result of a division by zero may be nan or +-inf in numpy, i.e. 0 or +-1.8e308
